@@ -204,8 +204,12 @@ def strings_harness(ctx, cfg):
     groups[lab] = 'vacuous ' + cls
     bad = []
     for v in ws:
-        for how in ('api', 'source', 'list', 'metadata'):
-            if how == 'api':
+        for how in ('api', 'source', 'list', 'metadata', 'metadata-key'):
+            if how == 'metadata-key':
+                if v == '':
+                    continue
+                build = lambda v=v: echo_program({'S': 'x', 'Metadata': collections.OrderedDict([(v, 'value'), ('Other', 'y')])})       # noqa: E731
+            elif how == 'api':
                 build = lambda v=v: echo_program({'S': v})       # noqa: E731
             elif how == 'list':
                 build = lambda v=v: echo_program({'LS': [v, 'plain']})       # noqa: E731
